@@ -7,7 +7,7 @@ from ..core.absint import AV, App, Const, ListV, Obj, State, Sym, walk_av
 from ..core.ctx import CLI, GETAPI, Ctx
 from ..core.report import Collector
 from ..core.source import AnalysisError
-from .common import find_loops, new_effects, run_body, sym_is
+from .common import unwrap_iterable, find_loops, new_effects, run_body, sym_is
 
 EXCLUDED = {"test", "tests", "docs"}
 LOOKALIKES = ["testing", "mytests", "docs_old", "test_x.py", "tests.py", "latest", "Test", "TESTS", "doc", "src"]
@@ -30,16 +30,17 @@ def check(ctx: Ctx, col: Collector, tier: str) -> None:
         it = ctx.interp(fi)
         st = State({})
         it.run_function(fi, {"root": Sym("root"), "is_test_run": Const(flag)}, st)
-        loops = find_loops(it, fi, lambda v: isinstance(v, App) and v.func in (".glob", ".rglob") and v.args and v.args[0] == Sym("root"))
+        loops = find_loops(it, fi, lambda v: isinstance(v, App) and v.func in (".glob", ".rglob") and v.args and v.args[0] == Sym("root"), any_order=True)
         if len(loops) != 1:
             # the root may have been rebound to the nearest package directory
-            loops = [l for l in find_loops(it, fi, lambda v: isinstance(v, App) and v.func in (".glob", ".rglob"))]
+            loops = [l for l in find_loops(it, fi, lambda v: isinstance(v, App) and v.func in (".glob", ".rglob"), any_order=True)]
         if len(loops) != 1:
             raise AnalysisError(f"file discovery loop not found in get_api ({len(loops)})")
         return it, loops[0]
 
     # ------------------------------------------------------------------ GLOB
     it, (node, itv, elem, entry) = loop_for(False)
+    itv = unwrap_iterable(itv, any_order=True)
     pat = dict(itv.kwargs).get("pattern", itv.args[1] if len(itv.args) > 1 else None)
     pats = pat.v if isinstance(pat, Const) else None
     good = (itv.func == ".rglob" and pats in ("*.py",)) or (itv.func == ".glob" and isinstance(pats, str) and pats.lstrip("./") == "**/*.py")
